@@ -56,6 +56,10 @@ def base_family(observer=None):
     add("H_ttl_and_self_trade", [S(0, 2, True, True, maxNormalOrders=2, maxHighFrequencyOrders=1, highFrequencySubmitRate=0.5),
                                  S(1, 2, True, True, maxNormalOrders=2, maxHighFrequencyOrders=1)],
         agents(2, 1, menu_n=MENU_X, prog_n=[[8, 1, 7, 1], [2, 6, 2, 2]], prog_h=[[1, 5]]))
+    # limit prices of exactly zero (accepted with a warning): fills at price 0 still move shares
+    menu0 = [[], [bl(0, 0.0, 3)], [sl(0, 0.0, 2)], [bl(0, 100)], [sl(0, 100)], [sm(0, 1)], [bm(0, 1)], [CL]]
+    add("O_zero_price_fills", [S(0, 1, True, False, maxNormalOrders=2), S(1, 3, True, True, maxNormalOrders=2)],
+        [dict(name="A0", menu=menu0, program=[1, 3, 5, 1], markets=["M0"]), dict(name="A1", menu=menu0, program=[2, 4, 2, 6], markets=["M0"])])
     # two plain markets + an index market; orders, cancels and fills on all of them, an HFT agent on the index
     mk3 = [dict(name="M0", shares=1), dict(name="M1", shares=2), dict(name="IDX", cls="ProbeIndexMarket", components=["M0", "M1"])]
     menu3 = [[], [bl(0, 101)], [sl(0, 99)], [bl(1, 101, 2)], [sl(1, 99, 2)], [bl(2, 101)], [sl(2, 99)], [CL], [bl(0, 100), sl(1, 100), bl(2, 100)],
